@@ -163,8 +163,8 @@ theorem c19_tl_bare_cycle_diverges (f : Nat) : Tl.deser cyclicTable f [] (some 0
   induction f with
   | zero => rfl
   | succ n ih =>
-    simp only [Tl.deser, Tl.deserLevel, Tl.fieldsOf, cyclicTable, List.getElem?_cons_zero, Tl.fieldsLoop, Tl.fieldStep,
-      List.drop_nil]
+    simp only [Tl.deser, Tl.deserLevel, Tl.fieldsOf, cyclicTable, List.getElem?_cons_zero, Tl.bareFields, List.map_cons,
+      List.map_nil, Tl.fieldsLoop, Tl.fieldStep, List.drop_nil]
     simp only [cyclicTable] at ih
     rw [ih]
 
